@@ -1,4 +1,511 @@
-From Pybtex Require Import Base.Prelude Base.PyChar Base.PyStr Model.BibtexStr Model.Names.
+(* Proofs/Names.v -- lemmas about Model/Names.v (Person._parse_string): totality, token
+   conservation, the von/last boundary.  The statements exported to Props/C04.v are at the end. *)
+From Pybtex Require Import Base.Prelude Base.PyChar Base.PyStr Model.BibtexStr Model.Names Spec.Names Proofs.NamesSplit.
 
 Lemma person_of_empty : person_of_string [] = Ok (empty_person, false).
 Proof. reflexivity. Qed.
+
+Definition isvon (t : str) : Prop := is_von_name t = Ok true.
+Definition notvon (t : str) : Prop := is_von_name t = Ok false.
+
+(* ------------------------------------------------------------------------------------ *)
+(* totality of the pieces *)
+
+Lemma scan_go_good : forall s level sp, good (scan_go s level sp).
+Proof.
+  induction s as [|c t IH]; intros level sp; cbn [scan_go].
+  - destruct sp as [[d acc]|]; exact I.
+  - destruct sp as [[d acc]|].
+    + destruct (is_lbrace c).
+      * destruct (Nat.ltb _ _); [exact I|apply IH].
+      * destruct (is_rbrace c); [|apply IH].
+        destruct d; [|apply IH]. apply good_bind; [apply IH|]. intros; exact I.
+    + destruct (is_lbrace c).
+      * destruct (_ && _). { apply good_bind; [apply IH|intros; exact I]. }
+        destruct (Nat.ltb _ _); [exact I|]. apply good_bind; [apply IH|intros; exact I].
+      * destruct (_ && _); (apply good_bind; [apply IH|intros; exact I]).
+Qed.
+
+Lemma is_von_name_good t : t <> [] -> good (is_von_name t).
+Proof.
+  destruct t as [|c t]; [congruence|]. intros _. unfold is_von_name.
+  destruct (is_upper c); [exact I|]. destruct (is_lower c); [exact I|].
+  apply good_bind; [apply scan_go_good|intros; exact I].
+Qed.
+
+Lemma find_pos_good l : Forall (fun t => t <> []) l -> good (find_pos l).
+Proof.
+  induction 1 as [|x l Hx Hl IH]; cbn [find_pos]; [exact I|].
+  apply good_bind; [now apply is_von_name_good|]. intros b _. destruct b; [exact I|].
+  apply good_bind; [exact IH|]. intros; exact I.
+Qed.
+
+(* ------------------------------------------------------------------------------------ *)
+(* find_pos / split_at / rsplit_at *)
+
+Lemma find_pos_spec l : forall n, find_pos l = Ok n ->
+  exists a b, l = a ++ b /\ length a = n /\ Forall notvon a /\ (b = [] \/ exists x b', b = x :: b' /\ isvon x).
+Proof.
+  induction l as [|x l IH]; intros n H; cbn [find_pos] in H.
+  - inversion H. exists [], []. repeat split; auto.
+  - destruct (is_von_name x) as [b| | |] eqn:E; cbn [bind] in H; try discriminate.
+    destruct b.
+    + inversion H; subst. exists [], (x :: l). repeat split; auto. right. exists x, l. auto.
+    + destruct (find_pos l) as [m| | |] eqn:F; cbn [bind] in H; try discriminate. inversion H; subst.
+      destruct (IH m eq_refl) as (a & b & -> & Hl & Ha & Hb).
+      exists (x :: a), b. repeat split; cbn; auto.
+Qed.
+
+Lemma split_at_spec l a b : split_at l = Ok (a, b) ->
+  l = a ++ b /\ Forall notvon a /\ (b = [] \/ exists x b', b = x :: b' /\ isvon x).
+Proof.
+  unfold split_at. destruct (find_pos l) as [n| | |] eqn:F; cbn [bind]; try discriminate.
+  intros [= <- <-]. destruct (find_pos_spec l n F) as (a & b & -> & <- & Ha & Hb).
+  rewrite firstn_app, Nat.sub_diag, firstn_all, skipn_app, Nat.sub_diag, skipn_all. cbn. rewrite !app_nil_r. auto.
+Qed.
+
+Lemma rsplit_at_spec l a b : rsplit_at l = Ok (a, b) ->
+  l = a ++ b /\ Forall notvon b /\ (a = [] \/ exists a' x, a = a' ++ [x] /\ isvon x).
+Proof.
+  unfold rsplit_at. destruct (find_pos (rev l)) as [n| | |] eqn:F; cbn [bind]; try discriminate.
+  intros [= <- <-]. destruct (find_pos_spec _ n F) as (a & b & E & <- & Ha & Hb).
+  assert (El : l = rev b ++ rev a) by (rewrite <- rev_app_distr, <- E, rev_involutive; reflexivity).
+  assert (Ep : length l - length a = length (rev b)).
+  { rewrite El, app_length, !rev_length. lia. }
+  rewrite Ep. clear Ep F E. subst l.
+  rewrite firstn_app, Nat.sub_diag, firstn_all, skipn_app, Nat.sub_diag, skipn_all. cbn. rewrite !app_nil_r.
+  split; [reflexivity|]. split.
+  - apply Forall_rev. exact Ha.
+  - destruct Hb as [->|(x & b' & -> & Hx)]; [left; reflexivity|]. right. exists (rev b'), x. cbn. auto.
+Qed.
+
+Lemma rsplit_at_good l : Forall (fun t => t <> []) l -> good (rsplit_at l).
+Proof.
+  intros H. unfold rsplit_at. apply good_bind; [|intros; exact I].
+  apply find_pos_good. apply Forall_rev. exact H.
+Qed.
+
+(* ------------------------------------------------------------------------------------ *)
+(* list helpers *)
+Lemma removelast_snoc {X} (l : list X) x : removelast (l ++ [x]) = l.
+Proof. rewrite removelast_app by discriminate. cbn. apply app_nil_r. Qed.
+
+Lemma snoc_cases {X} (l : list X) : l = [] \/ exists l' x, l = l' ++ [x].
+Proof.
+  destruct l as [|y l]; [left; reflexivity|]. right.
+  destruct (@exists_last _ (y :: l)) as (l' & a & E); [discriminate|]. eauto.
+Qed.
+
+Lemma Forall_removelast {X} (P : X -> Prop) l : Forall P l -> Forall P (removelast l).
+Proof.
+  destruct (snoc_cases l) as [->|(l' & x & ->)]; [auto|]. rewrite removelast_snoc.
+  intros H. apply Forall_app in H. tauto.
+Qed.
+
+(* ------------------------------------------------------------------------------------ *)
+(* process_von_last: the von part ends at the last von token that is not the last token *)
+
+Lemma process_von_last_spec p parts p' : process_von_last p parts = Ok p' ->
+  exists von lst,
+    parts = von ++ lst /\
+    p' = mkPerson (p_first p) (p_middle p) (p_prelast p ++ von) (p_last p ++ lst) (p_lineage p) /\
+    (parts <> [] -> lst <> []) /\
+    Forall notvon (removelast lst) /\
+    (von = [] \/ exists v' x, von = v' ++ [x] /\ isvon x).
+Proof.
+  unfold process_von_last.
+  destruct (snoc_cases parts) as [->|(init & z & ->)].
+  - cbn. intros [= <-]. exists [], []. repeat split; auto. constructor.
+  - rewrite removelast_snoc, last_last.
+    assert (Ed : match init ++ [z] with [] => [] | _ :: _ => [z] end = [z]) by (destruct init; reflexivity).
+    rewrite Ed. clear Ed.
+    destruct init as [|i0 init'].
+    + cbn [bind fst snd app]. intros [= <-]. exists [], [z]. repeat split; auto. cbn. constructor.
+    + destruct (rsplit_at (i0 :: init')) as [[a b]| | |] eqn:R; cbn [bind fst snd]; try discriminate.
+      intros [= <-]. apply rsplit_at_spec in R as (E & Hb & Ha).
+      exists a, (b ++ [z]). rewrite E. repeat split.
+      * now rewrite app_assoc.
+      * intros _ H. apply app_eq_nil in H as [_ H]. discriminate.
+      * rewrite removelast_snoc. exact Hb.
+      * exact Ha.
+Qed.
+
+Lemma process_von_last_good p parts : Forall (fun t => t <> []) parts -> good (process_von_last p parts).
+Proof.
+  intros H. unfold process_von_last. apply good_bind; [|intros; exact I].
+  destruct (snoc_cases parts) as [->|(init & z & ->)]; [exact I|].
+  rewrite removelast_snoc. apply Forall_app in H as [H _].
+  destruct init; [exact I|]. now apply rsplit_at_good.
+Qed.
+
+Lemma process_first_middle_spec parts :
+  process_first_middle empty_person parts = mkPerson (firstn 1 parts) (skipn 1 parts) [] [] [].
+Proof. destruct parts; reflexivity. Qed.
+
+(* ------------------------------------------------------------------------------------ *)
+(* Person(string) = _parse_string(string.strip()) (the explicit part arguments are all "") *)
+
+Lemma split_space_nil : split_tex_space [] = Ok [].
+Proof. reflexivity. Qed.
+
+Lemma person_of_string_eq s : person_of_string s =
+  match strip s with [] => Ok (empty_person, false) | _ :: _ => parse_string empty_person (strip s) end.
+Proof.
+  unfold person_of_string, person_init. rewrite split_space_nil.
+  destruct (strip s) as [|c t]; [reflexivity|].
+  destruct (parse_string empty_person (c :: t)) as [[p rep]| | |]; cbn [bind]; try reflexivity.
+  rewrite !app_nil_r. destruct p; reflexivity.
+Qed.
+
+Lemma split_space_ok s : exists ts, split_tex_space s = Ok ts /\ Forall (fun t => t <> []) ts.
+Proof.
+  destruct (split_gen_good sep_space s true true) as [ts H]. exists ts. split; [exact H|].
+  now apply split_space_tokens_nonempty in H.
+Qed.
+
+(* the decomposition that all three forms share *)
+Record von_last_ok (ta : list str) (p : person) : Prop := {
+  vl_tokens : ta = p_prelast p ++ p_last p;
+  vl_last_nonempty : ta <> [] -> p_last p <> [];
+  vl_last_notvon : Forall notvon (removelast (p_last p));
+  vl_von_ends_von : p_prelast p = [] \/ exists v' x, p_prelast p = v' ++ [x] /\ isvon x }.
+
+Lemma isvon_notvon t : isvon t -> notvon t -> False.
+Proof. unfold isvon, notvon. congruence. Qed.
+
+Lemma finish_von_last fm' vl' p rep :
+  (do p1 <- process_von_last (process_first_middle empty_person fm') vl'; Ok (p1, false)) = Ok (p, rep) ->
+  rep = false /\ exists von lst, vl' = von ++ lst /\ p = mkPerson (firstn 1 fm') (skipn 1 fm') von lst [] /\
+    (vl' <> [] -> lst <> []) /\ Forall notvon (removelast lst) /\ (von = [] \/ exists v' x, von = v' ++ [x] /\ isvon x).
+Proof.
+  destruct (process_von_last _ vl') as [p1| | |] eqn:PV; cbn [bind]; try discriminate.
+  intros [= <- <-]. split; [reflexivity|].
+  apply process_von_last_spec in PV as (von & lst & E & -> & H1 & H2 & H3).
+  rewrite process_first_middle_spec. cbn. eauto 10.
+Qed.
+
+(* First von Last *)
+Lemma parse_form0 name x p rep : split_tex_comma name = Ok [x] -> parse_string empty_person name = Ok (p, rep) ->
+  exists ts fm, split_tex_space name = Ok ts /\ rep = false /\ p_lineage p = [] /\
+    p_first p = firstn 1 fm /\ p_middle p = skipn 1 fm /\
+    ts = fm ++ p_prelast p ++ p_last p /\
+    Forall notvon fm /\
+    (ts <> [] -> p_last p <> []) /\
+    Forall notvon (removelast (p_last p)) /\
+    (p_prelast p = [] \/ (exists x v', p_prelast p = x :: v' /\ isvon x) /\ (exists v' x, p_prelast p = v' ++ [x] /\ isvon x)) /\
+    (p_prelast p = [] -> length (p_last p) <= 1).
+Proof.
+  intros Hc. unfold parse_string. rewrite Hc. cbn [bind length Nat.ltb Nat.leb].
+  destruct (split_space_ok name) as (ts & -> & _). cbn [bind].
+  destruct (split_at ts) as [[fm vl]| | |] eqn:SA; cbn [bind]; try discriminate.
+  apply split_at_spec in SA as (E & Hfm & Hvl).
+  destruct vl as [|v0 vl'].
+  - (* no von token at all: the last token is the last name *)
+    rewrite app_nil_r in E. subst fm.
+    destruct (snoc_cases ts) as [->|(init & z & ->)].
+    + intros H. apply finish_von_last in H as (-> & von & lst & E & -> & H1 & H2 & H3).
+      symmetry in E. apply app_eq_nil in E as [-> ->]. exists [], []. cbn. repeat split; auto.
+    + assert (Em : match init ++ [z] with [] => (init ++ [z], []) | _ :: _ => (removelast (init ++ [z]), [last (init ++ [z]) []]) end
+                   = (init, [z])).
+      { rewrite removelast_snoc, last_last. destruct init; reflexivity. }
+      rewrite Em. clear Em.
+      intros H. apply finish_von_last in H as (-> & von & lst & E & -> & H1 & H2 & H3).
+      assert (von = [] /\ lst = [z]) as [-> ->].
+      { destruct H3 as [->|(v' & y & -> & _)]; [cbn in E; auto|].
+        exfalso. apply (f_equal (@length _)) in E. rewrite !app_length in E. cbn in E.
+        destruct lst; [apply H1; [discriminate|reflexivity]|cbn in E; lia]. }
+      exists (init ++ [z]), init. cbn. apply Forall_app in Hfm as [Hi _].
+      repeat split; auto. discriminate.
+  - destruct Hvl as [Hvl|(y & b' & [= <- <-] & Hy)]; [discriminate|].
+    intros H. apply finish_von_last in H as (-> & von & lst & E' & -> & H1 & H2 & H3).
+    exists ts, fm. cbn. subst ts. rewrite E'.
+    repeat split; auto.
+    + intros _. apply H1. discriminate.
+    + destruct von as [|w von']; [left; reflexivity|right]. split.
+      * cbn in E'. injection E' as <- _. eauto.
+      * destruct H3 as [H3|H3]; [discriminate|exact H3].
+    + intros ->. cbn in E'. subst lst.
+      destruct vl' as [|v1 vl'']; [cbn; lia|]. exfalso.
+      cbn in H2. inversion H2; subst. eapply isvon_notvon; eauto.
+Qed.
+
+(* von Last, First   /   von Last, Jr, First   /   more commas: reported, parts 3.. re-joined *)
+Lemma process_first_middle_gen v l j parts :
+  process_first_middle (mkPerson [] [] v l j) parts = mkPerson (firstn 1 parts) (skipn 1 parts) v l j.
+Proof. destruct parts; reflexivity. Qed.
+
+Lemma von_last_of_empty ta p1 : process_von_last empty_person ta = Ok p1 ->
+  exists von lst, p1 = mkPerson [] [] von lst [] /\ ta = von ++ lst /\ (ta <> [] -> lst <> []) /\
+    Forall notvon (removelast lst) /\ (von = [] \/ exists v' x, von = v' ++ [x] /\ isvon x).
+Proof.
+  intros H. apply process_von_last_spec in H as (von & lst & E & -> & H1 & H2 & H3).
+  exists von, lst. cbn. auto.
+Qed.
+
+Lemma parse3 a jr f (rep0 : bool) p rep :
+  (do ta <- split_tex_space a; do tb <- split_tex_space jr; do tc <- split_tex_space f;
+   do p1 <- process_von_last empty_person ta;
+   let p2 := mkPerson (p_first p1) (p_middle p1) (p_prelast p1) (p_last p1) (p_lineage p1 ++ tb) in
+   Ok (process_first_middle p2 tc, rep0)) = Ok (p, rep) ->
+  rep = rep0 /\ exists ta tj tf, split_tex_space a = Ok ta /\ split_tex_space jr = Ok tj /\ split_tex_space f = Ok tf /\
+    von_last_ok ta p /\ p_lineage p = tj /\ p_first p = firstn 1 tf /\ p_middle p = skipn 1 tf.
+Proof.
+  destruct (split_space_ok a) as (ta & -> & _). destruct (split_space_ok jr) as (tj & -> & _).
+  destruct (split_space_ok f) as (tf & -> & _). cbn [bind].
+  destruct (process_von_last empty_person ta) as [p1| | |] eqn:PV; cbn [bind]; try discriminate.
+  apply von_last_of_empty in PV as (von & lst & -> & E & H1 & H2 & H3). cbn [p_first p_middle p_prelast p_last p_lineage app].
+  rewrite process_first_middle_gen. intros [= <- <-]. split; [reflexivity|].
+  exists ta, tj, tf. repeat split; auto.
+Qed.
+
+Lemma parse2 a f (rep0 : bool) p rep :
+  (do ta <- split_tex_space a; do tb <- split_tex_space f;
+   do p1 <- process_von_last empty_person ta;
+   Ok (process_first_middle p1 tb, rep0)) = Ok (p, rep) ->
+  rep = rep0 /\ exists ta tf, split_tex_space a = Ok ta /\ split_tex_space f = Ok tf /\
+    von_last_ok ta p /\ p_lineage p = [] /\ p_first p = firstn 1 tf /\ p_middle p = skipn 1 tf.
+Proof.
+  destruct (split_space_ok a) as (ta & -> & _). destruct (split_space_ok f) as (tf & -> & _). cbn [bind].
+  destruct (process_von_last empty_person ta) as [p1| | |] eqn:PV; cbn [bind]; try discriminate.
+  apply von_last_of_empty in PV as (von & lst & -> & E & H1 & H2 & H3).
+  rewrite process_first_middle_gen. intros [= <- <-]. split; [reflexivity|].
+  exists ta, tf. repeat split; auto.
+Qed.
+
+Lemma parse_form_comma name parts0 p rep : split_tex_comma name = Ok parts0 -> 2 <= length parts0 ->
+  parse_string empty_person name = Ok (p, rep) ->
+  rep = Nat.ltb 3 (length parts0) /\
+  exists ta tj tf,
+    split_tex_space (nth 0 parts0 []) = Ok ta /\ split_tex_space (jr_part parts0) = Ok tj /\
+    split_tex_space (first_part parts0) = Ok tf /\
+    von_last_ok ta p /\ p_lineage p = tj /\ p_first p = firstn 1 tf /\ p_middle p = skipn 1 tf.
+Proof.
+  intros Hc Hl. unfold parse_string. rewrite Hc. cbn [bind].
+  destruct parts0 as [|a [|b [|c [|d rest]]]]; cbn [length] in Hl; try lia.
+  - cbn [length Nat.ltb Nat.leb]. intros H. apply parse2 in H as (-> & ta & tf & Ha & Hf & Hv & Hj & H1 & H2).
+    split; [reflexivity|]. exists ta, [], tf. unfold jr_part, first_part. cbn [length Nat.eqb nth]. rewrite split_space_nil. auto 10.
+  - cbn [length Nat.ltb Nat.leb]. intros H. apply parse3 in H as (-> & ta & tj & tf & Ha & Hj & Hf & Hv & Hj' & H1 & H2).
+    split; [reflexivity|]. exists ta, tj, tf. unfold jr_part, first_part. cbn [length Nat.eqb nth skipn join]. auto 10.
+  - assert (Et : Nat.ltb 3 (length (a :: b :: c :: d :: rest)) = true) by reflexivity.
+    rewrite Et. cbn [firstn app]. intros H. apply parse3 in H as (-> & ta & tj & tf & Ha & Hj & Hf & Hv & Hj' & H1 & H2).
+    split; [reflexivity|]. exists ta, tj, tf. unfold jr_part, first_part.
+    change (Nat.eqb (length (a :: b :: c :: d :: rest)) 2) with false. cbn [nth]. auto 10.
+Qed.
+
+(* ------------------------------------------------------------------------------------ *)
+(* totality: Person(string, first, ...) never raises a foreign exception and never diverges *)
+
+Lemma process_first_middle_total p parts : exists p', process_first_middle p parts = p'.
+Proof. eauto. Qed.
+
+Lemma parse_string_good name : name <> [] -> good (parse_string empty_person name).
+Proof.
+  intros Hn. unfold parse_string.
+  destruct (split_gen_good sep_comma name true false) as [parts0 Hc]. fold (split_tex_comma name) in Hc.
+  rewrite Hc. cbn [bind]. assert (Hp := split_comma_nonempty _ _ Hn Hc).
+  assert (G3 : forall a jr f (rep0 : bool), good
+    (do ta <- split_tex_space a; do tb <- split_tex_space jr; do tc <- split_tex_space f;
+     do p1 <- process_von_last empty_person ta;
+     let p2 := mkPerson (p_first p1) (p_middle p1) (p_prelast p1) (p_last p1) (p_lineage p1 ++ tb) in
+     Ok (process_first_middle p2 tc, rep0))).
+  { intros a jr f rep0. destruct (split_space_ok a) as (ta & -> & Ha). destruct (split_space_ok jr) as (tj & -> & _).
+    destruct (split_space_ok f) as (tf & -> & _). cbn [bind].
+    apply good_bind; [now apply process_von_last_good|]. intros; exact I. }
+  destruct parts0 as [|a [|b [|c [|d rest]]]]; [congruence| | | |].
+  - cbn [length Nat.ltb Nat.leb]. destruct (split_space_ok name) as (ts & -> & Hts). cbn [bind].
+    destruct (split_at ts) as [[fm vl]| | |] eqn:SA.
+    + cbn [bind]. assert (SA' := SA). apply split_at_spec in SA' as (E & _ & _).
+      subst ts. apply Forall_app in Hts as [Hfm Hvl].
+      match goal with |- context [let '(_, _) := ?e in _] => destruct e as [fm' vl''] eqn:Em end.
+      apply good_bind; [|intros; exact I]. apply process_von_last_good.
+      destruct vl as [|v0 vl0].
+      * destruct (snoc_cases fm) as [->|(i & z & ->)]; [inversion Em; constructor|].
+        assert (vl'' = [z]).
+        { destruct (i ++ [z]) eqn:Ez; [destruct i; discriminate|]. rewrite <- Ez in Em. rewrite last_last in Em. congruence. }
+        subst vl''. apply Forall_app in Hfm as [_ Hz]. exact Hz.
+      * inversion Em; subst. exact Hvl.
+    + unfold split_at in SA. pose proof (find_pos_good ts Hts) as G. destruct (find_pos ts); cbn in *; try discriminate; auto.
+    + unfold split_at in SA. pose proof (find_pos_good ts Hts) as G. destruct (find_pos ts); cbn in *; try discriminate; auto.
+    + unfold split_at in SA. pose proof (find_pos_good ts Hts) as G. destruct (find_pos ts); cbn in *; try discriminate; auto.
+  - cbn [length Nat.ltb Nat.leb].
+    destruct (split_space_ok a) as (ta & -> & Ha). destruct (split_space_ok b) as (tb & -> & _). cbn [bind].
+    apply good_bind; [now apply process_von_last_good|]. intros; exact I.
+  - cbn [length Nat.ltb Nat.leb]. apply G3.
+  - assert (Et : Nat.ltb 3 (length (a :: b :: c :: d :: rest)) = true) by reflexivity.
+    rewrite Et. cbn [firstn app]. apply G3.
+Qed.
+
+Lemma person_init_good s f m v l j : good (person_init s f m v l j).
+Proof.
+  unfold person_init.
+  apply good_bind.
+  - destruct (strip s) eqn:E; [exact I|]. apply parse_string_good. discriminate.
+  - intros [p rep] _.
+    destruct (split_space_ok f) as (? & -> & _). destruct (split_space_ok m) as (? & -> & _).
+    destruct (split_space_ok v) as (? & -> & _). destruct (split_space_ok l) as (? & -> & _).
+    destruct (split_space_ok j) as (? & -> & _). exact I.
+Qed.
+
+(* ------------------------------------------------------------------------------------ *)
+(* the statements exported to Props/C04.v *)
+
+Lemma good_no_crash {X} (r : res X) : good r -> r <> Crash /\ r <> OutOfFuel.
+Proof. destruct r; cbn; intros H; try contradiction; split; discriminate. Qed.
+
+Lemma parse_name_total_pf s f m v l j :
+  person_init s f m v l j <> Crash /\ person_init s f m v l j <> OutOfFuel.
+Proof. apply good_no_crash, person_init_good. Qed.
+
+Lemma person_cases s p rep : person_of_string s = Ok (p, rep) ->
+  (strip s = [] /\ p = empty_person /\ rep = false) \/
+  (strip s <> [] /\ parse_string empty_person (strip s) = Ok (p, rep)).
+Proof.
+  rewrite person_of_string_eq. destruct (strip s) eqn:E.
+  - intros [= <- <-]. auto.
+  - intros H. right. split; [discriminate|exact H].
+Qed.
+
+Lemma split_comma_nil : split_tex_comma [] = Ok [].
+Proof. reflexivity. Qed.
+
+Lemma firstn1_skipn1 {X} (l : list X) : firstn 1 l ++ skipn 1 l = l.
+Proof. apply firstn_skipn. Qed.
+
+Lemma one_part (parts : list str) : parts <> [] -> length parts <= 1 -> exists x, parts = [x].
+Proof. destruct parts as [|x [|y r]]; cbn; intros; try congruence; try lia. eauto. Qed.
+
+Lemma tokens_preserved_pf s parts p rep :
+  split_tex_comma (strip s) = Ok parts -> person_of_string s = Ok (p, rep) ->
+  (length parts <= 1 ->
+     exists ts, split_tex_space (strip s) = Ok ts /\
+       ts = p_first p ++ p_middle p ++ p_prelast p ++ p_last p /\ p_lineage p = [] /\ rep = false) /\
+  (2 <= length parts ->
+     exists ta tj tf, split_tex_space (nth 0 parts []) = Ok ta /\ split_tex_space (jr_part parts) = Ok tj /\
+       split_tex_space (first_part parts) = Ok tf /\
+       ta = p_prelast p ++ p_last p /\ tj = p_lineage p /\ tf = p_first p ++ p_middle p /\
+       rep = Nat.ltb 3 (length parts)).
+Proof.
+  intros Hc H. apply person_cases in H as [(E & -> & ->)|(E & H)].
+  - rewrite E in *. rewrite split_comma_nil in Hc. injection Hc as <-. split.
+    + intros _. exists []. rewrite split_space_nil. auto.
+    + cbn. lia.
+  - assert (Hp := split_comma_nonempty _ _ E Hc). split.
+    + intros Hl. destruct (one_part parts Hp Hl) as [x ->].
+      destruct (parse_form0 _ _ _ _ Hc H) as (ts & fm & Hts & -> & Hj & Hf & Hm & Et & _).
+      exists ts. repeat split; auto. rewrite Hf, Hm, app_assoc, firstn1_skipn1. exact Et.
+    + intros Hl. destruct (parse_form_comma _ _ _ _ Hc Hl H) as (-> & ta & tj & tf & Ha & Hj & Hf & Hv & Ej & E1 & E2).
+      exists ta, tj, tf. repeat split; auto.
+      * apply Hv.
+      * rewrite E1, E2. symmetry. apply firstn1_skipn1.
+Qed.
+
+Lemma last_snoc_eq {X} (l : list X) x d : last (l ++ [x]) d = x.
+Proof. apply last_last. Qed.
+
+Lemma von_is_longest_run_pf s x p rep :
+  split_tex_comma (strip s) = Ok [x] -> person_of_string s = Ok (p, rep) ->
+  Forall (fun t => is_von_name t = Ok false) (p_first p ++ p_middle p) /\
+  Forall (fun t => is_von_name t = Ok false) (removelast (p_last p)) /\
+  (p_prelast p = [] \/
+   (is_von_name (hd [] (p_prelast p)) = Ok true /\ is_von_name (last (p_prelast p) []) = Ok true)) /\
+  (p_prelast p = [] -> length (p_last p) <= 1) /\
+  p_first p = firstn 1 (p_first p ++ p_middle p).
+Proof.
+  intros Hc H. apply person_cases in H as [(E & -> & ->)|(E & H)].
+  - rewrite E, split_comma_nil in Hc. discriminate.
+  - destruct (parse_form0 _ _ _ _ Hc H) as (ts & fm & Hts & -> & Hj & Hf & Hm & Et & Hfm & Hl & Hn & Hv & H1).
+    assert (Efm : p_first p ++ p_middle p = fm) by (rewrite Hf, Hm; apply firstn1_skipn1).
+    rewrite Efm. repeat split; auto.
+    destruct Hv as [Hv|[(y & v' & Ey & Hy) (v'' & z & Ez & Hz)]]; [left; exact Hv|right]. split.
+    + rewrite Ey. exact Hy.
+    + rewrite Ez, last_snoc_eq. exact Hz.
+Qed.
+
+Lemma von_is_longest_run_comma_pf s parts p rep :
+  split_tex_comma (strip s) = Ok parts -> 2 <= length parts -> person_of_string s = Ok (p, rep) ->
+  Forall (fun t => is_von_name t = Ok false) (removelast (p_last p)) /\
+  (p_prelast p = [] \/ is_von_name (last (p_prelast p) []) = Ok true) /\
+  p_first p = firstn 1 (p_first p ++ p_middle p).
+Proof.
+  intros Hc Hl H. apply person_cases in H as [(E & -> & ->)|(E & H)].
+  - rewrite E, split_comma_nil in Hc. injection Hc as <-. cbn in Hl. lia.
+  - destruct (parse_form_comma _ _ _ _ Hc Hl H) as (-> & ta & tj & tf & Ha & Hj & Hf & Hv & Ej & E1 & E2).
+    split; [apply Hv|]. split.
+    + destruct (vl_von_ends_von _ _ Hv) as [Hn|(v' & z & Ez & Hz)]; [left; exact Hn|right].
+      rewrite Ez, last_snoc_eq. exact Hz.
+    + rewrite E1, E2, firstn1_skipn1. destruct tf; reflexivity.
+Qed.
+
+Lemma last_nonempty_pf s parts p rep ts :
+  split_tex_comma (strip s) = Ok parts -> person_of_string s = Ok (p, rep) ->
+  split_tex_space (if Nat.leb (length parts) 1 then strip s else nth 0 parts []) = Ok ts ->
+  ts <> [] -> p_last p <> [].
+Proof.
+  intros Hc H. apply person_cases in H as [(E & -> & ->)|(E & H)].
+  - rewrite E, split_comma_nil in Hc. injection Hc as <-. cbn. rewrite E, split_space_nil. intros [= <-]. congruence.
+  - assert (Hp := split_comma_nonempty _ _ E Hc).
+    destruct (Nat.leb (length parts) 1) eqn:L.
+    + apply Nat.leb_le in L. destruct (one_part parts Hp L) as [x ->].
+      destruct (parse_form0 _ _ _ _ Hc H) as (ts' & fm & Hts & -> & Hj & Hf & Hm & Et & Hfm & Hl & _).
+      rewrite Hts. intros [= <-]. exact Hl.
+    + apply Nat.leb_gt in L.
+      destruct (parse_form_comma _ _ _ _ Hc L H) as (-> & ta & tj & tf & Ha & Hj & Hf & Hv & _).
+      rewrite Ha. intros [= <-]. apply Hv.
+Qed.
+
+(* the two totality facts other properties (C10) take as a premise about these models *)
+Lemma person_of_string_total s : person_of_string s <> Crash /\ person_of_string s <> OutOfFuel.
+Proof. apply parse_name_total_pf. Qed.
+
+Lemma split_name_list_total s : split_name_list s <> Crash /\ split_name_list s <> OutOfFuel.
+Proof.
+  unfold split_name_list. destruct (split_gen_good sep_and s true false) as [r ->]. split; discriminate.
+Qed.
+
+(* ------------------------------------------------------------------------------------ *)
+(* conservation at the level of characters: nothing but separators is dropped *)
+Lemma content_keep s : content s = keep name_sep s.
+Proof. reflexivity. Qed.
+
+Lemma name_sep_space c : is_space c = true -> name_sep c = true.
+Proof. unfold name_sep. intros ->. reflexivity. Qed.
+
+Lemma content_space_tokens s ts : split_tex_space s = Ok ts -> content (concat ts) = content s.
+Proof. rewrite !content_keep. apply split_space_keep; [exact name_sep_space|reflexivity|reflexivity]. Qed.
+
+Lemma content_comma_parts s ts : split_tex_comma s = Ok ts -> content (concat ts) = content s.
+Proof. rewrite !content_keep. apply split_comma_keep; [exact name_sep_space|reflexivity]. Qed.
+
+Lemma content_app a b : content (a ++ b) = content a ++ content b.
+Proof. apply filter_app. Qed.
+
+Lemma content_strip s : content (strip s) = content s.
+Proof. rewrite !content_keep. apply keep_strip. exact name_sep_space. Qed.
+
+Lemma content_join_space l : content (join [c_space] l) = content (concat l).
+Proof.
+  induction l as [|x [|y r] IH]; [reflexivity|cbn; now rewrite app_nil_r|].
+  change (join [c_space] (x :: y :: r)) with (x ++ [c_space] ++ join [c_space] (y :: r)).
+  cbn [concat]. rewrite !content_app, IH. cbn [concat]. rewrite !content_app. reflexivity.
+Qed.
+
+Lemma concat_app_str (a b : list str) : concat (a ++ b) = concat a ++ concat b.
+Proof. apply concat_app. Qed.
+
+Lemma chars_preserved_pf s parts p rep :
+  split_tex_comma (strip s) = Ok parts -> person_of_string s = Ok (p, rep) ->
+  (length parts <= 1 -> content (concat (p_first p ++ p_middle p ++ p_prelast p ++ p_last p)) = content s) /\
+  (2 <= length parts ->
+     content (concat ((p_prelast p ++ p_last p) ++ p_lineage p ++ (p_first p ++ p_middle p))) = content s).
+Proof.
+  intros Hc H. destruct (tokens_preserved_pf _ _ _ _ Hc H) as [H0 H2]. split.
+  - intros Hl. destruct (H0 Hl) as (ts & Hts & <- & _). rewrite (content_space_tokens _ _ Hts). apply content_strip.
+  - intros Hl. destruct (H2 Hl) as (ta & tj & tf & Ha & Hj & Hf & <- & <- & <- & _).
+    rewrite !concat_app_str, !content_app.
+    rewrite (content_space_tokens _ _ Ha), (content_space_tokens _ _ Hj), (content_space_tokens _ _ Hf).
+    rewrite <- (content_strip s), <- (content_comma_parts _ _ Hc).
+    destruct parts as [|a [|b [|c rest]]]; cbn [length] in Hl; try lia.
+    + unfold jr_part, first_part. cbn [length Nat.eqb nth concat]. now rewrite !content_app, app_nil_r.
+    + unfold jr_part, first_part. change (Nat.eqb (length (a :: b :: c :: rest)) 2) with false. cbv iota.
+      cbn [nth skipn]. rewrite content_join_space. cbn [concat]. now rewrite !content_app.
+Qed.
